@@ -9,7 +9,14 @@ Props/C12.lean to be the abstract `zfit/zcompose/zremove` the property theorems 
 Cases are call HISTORIES: several compose/fit/remove calls in one process on the same mask with different coordinates,
 normalisations, mode orders and memory layouts (Fortran order, transposed views, strided views, float32, bool/int masks); every call is
 compared with the stateless model answer for that call alone, so hidden state or layout dependence shows up as a disagreement,
-and the property itself (fit∘compose = id, fit∘remove = 0, idempotence, span -> 0, order independence) is evaluated on the results."""
+and the property itself (fit∘compose = id, fit∘remove = 0, idempotence, span -> 0, order independence) is evaluated on the results.
+
+The caller's arrays (one mask per layout, one rho/theta pair per coordinate choice and layout) are created ONCE per history and handed
+to every call; each is compared with a private copy after every library call — a call that writes into the caller's OPD, mask or
+coordinates is reported as a violation with that call as the failing input (the next call would otherwise silently fit other
+coordinates than compose used).  The model always receives the coordinates the caller MEANT.  Masks, coordinates and the conditioning
+of every mode set are computed by a small numpy reference in this file, never by the library under test, so a changed library cannot
+crash the generator or push a case out of the judged range."""
 import math, numpy as np
 from harness.common import *
 import vlib
@@ -23,15 +30,17 @@ LEVEL_TEXT = ('Lean 4 theorems (Mathlib matrices), for every basis matrix B with
               'B·c, and two concrete Zernike bases over Q (one ray; a 2x2 array with cosine, sine and radial modes) satisfy the independence hypothesis. PARTIAL: that np.linalg.pinv(basis)·opd is the '
               'normal-equation solution, and that the code builds exactly this basis, are checked by correspondence only.')
 LEVEL_NOTE = ('Trusted: Lean kernel and Mathlib; np.linalg.pinv(basis) = (BᵀB)⁻¹Bᵀ for full column rank and np.einsum contractions (compared on '
-              'every call with the Lean model run at Float, tolerance 1e-9 x conditioning); float rounding; generator coverage (histories of '
+              'every call with the Lean model run at Float; basis/compose values to 1e-8, fit/remove to 1e-10 x max(1, cond²) — the bound on the Float model\'s own rounding — while '
+              'the property itself is judged on the library\'s results at 1e-12 x cond); the harness\'s numpy reference for conditioning and coordinates; float rounding; generator coverage (histories of '
               '6-9 calls, layouts, dtypes).')
 TECHNIQUE = 'Lean 4 proof over Mathlib matrices + executable Lean model of basis/fit/compose/remove with differential correspondence on call histories'
 GEN = ['ZernikeCalls', 'ZernikeR']
 OPS = ['C11', 'C12']
 RULE = ('cases = call histories of 6-9 compose/fit/remove calls in one process on one mask (circular / hexagonal / segmented / off-centre / '
-        'irregular weighted, sizes 9..22 even and odd): same modes with default then caller-supplied (shifted, rotated) coordinates, both '
+        'irregular weighted, sizes 9..22 even and odd; all built by the harness, not by the library): same modes with default then caller-supplied (shifted, rotated) coordinates, both '
         'normalisations, reversed/permuted mode orders, repeated calls; non-empty mode subsets of Noll 1..36 of size 1..6 in random order (never '
-        'exactly 1..k), given as list, ndarray or scalar; OPDs with and without content outside the mask; inputs C-ordered, Fortran-ordered, '
+        'exactly 1..k), half of the histories with sets made of PAIRS OF ADJACENT indices (all 16 cosine/sine partner pairs (2,3)…(35,36) in rotation, every one in every quick run, and arbitrary (j, j+1); in the thorough tier and the failing-input search also pairs from Noll 37..66), given as list, ndarray or scalar; '
+        'the caller\'s coordinate / mask arrays are created ONCE per history and handed to every call (inputs must come back untouched); the conditioning of every mode set is computed by an independent numpy reference, never by the library; OPDs with and without content outside the mask; inputs C-ordered, Fortran-ordered, '
         'transposed views, strided views, float32 OPDs, bool/int/float32 masks; zernike_basis observed directly (cube and vectorised); medium-conditioned '
         'histories (cond 1e2..1e4, with residual) compared with the model; ill-conditioned full-rank histories (cond up to 1e9, zero residual) judged by the '
         'oracle only; distinct = (mask kind, shape, step list) signature')
@@ -48,18 +57,78 @@ ASSUMPTIONS = ['modes linearly independent on the mask (IsUnit det(BᵀB)); nume
 TOL = 1e-9
 LAYOUTS = ['C', 'F', 'T', 'S']
 
+# ------------------------------------------------------------------------------------------ reference (numpy only)
+# The generator never calls the library under test: masks, coordinates and the conditioning of a mode set are computed here from the
+# textbook definitions, so a changed library can neither crash the generation nor move a case outside the judged range.
+def _grid(shape, shift=(0.0, 0.0)):
+    nr, nc = shape
+    ii, jj = np.mgrid[0:nr, 0:nc]
+    return ii - nr // 2 - shift[0], jj - nc // 2 - shift[1]
+
+def _disc(shape, r, shift=(0, 0)):
+    rr, cc = _grid(shape, shift)
+    return (rr * rr + cc * cc <= r * r).astype(float)
+
+def _hexm(shape, r, shift=(0, 0), rotate=False):
+    rr, cc = _grid(shape, shift)
+    a, b = (np.abs(rr), np.abs(cc)) if rotate else (np.abs(cc), np.abs(rr))
+    h = r * math.sqrt(3) / 2
+    return ((b <= h) & (a / 2 * math.sqrt(3) + b / 2 <= h)).astype(float)
+
+def ref_coords(mask, shift=None, rotate=0.0):
+    """polar coordinates as documented: origin at the centroid of the support (or array centre + shift), rho = 1 at the farthest
+    sample of the support, theta measured from the x axis (columns), y up (= -rows), rotated by `rotate` degrees"""
+    sup = np.asarray(mask) != 0
+    nr, nc = sup.shape
+    if shift is None:
+        ii, jj = np.nonzero(sup)
+        shift = (ii.mean() - nr // 2, jj.mean() - nc // 2)
+    rr, cc = _grid(sup.shape, shift)
+    r = np.hypot(rr, cc)
+    a = np.deg2rad(90.0 - rotate)
+    return r / (r * sup).max(), np.angle((-rr + 1j * cc) * np.exp(1j * a))
+
+def ref_noll(j):
+    n = 0
+    while (n + 1) * (n + 2) // 2 < j: n += 1
+    k = j - n * (n + 1) // 2                                    # 1..n+1 within the row
+    m = 2 * (k // 2) if n % 2 == 0 else 2 * ((k - 1) // 2) + 1
+    return (m if j % 2 == 0 else -m), n
+
+def ref_mode(j, rho, theta, sup, normalize):
+    m, n = ref_noll(j); am = abs(m)
+    f = math.factorial
+    rad = sum((-1) ** k * f(n - k) / (f(k) * f((n + am) // 2 - k) * f((n - am) // 2 - k)) * rho ** (n - 2 * k) for k in range((n - am) // 2 + 1))
+    ang = 1.0 if m == 0 else np.cos(m * theta) if m > 0 else np.sin(m * theta)
+    nrm = (math.sqrt(n + 1) if m == 0 else math.sqrt(2 * (n + 1))) if normalize else 1.0
+    return nrm * rad * ang * sup
+
+def ref_cond(mask, modes, rho, theta):
+    sup = (np.asarray(mask) != 0).astype(float)
+    return max(float(np.linalg.cond(np.array([ref_mode(j, rho, theta, sup, nz).ravel() for j in modes]).T)) for nz in (True, False))
+
+def _case_coords(c, spec):
+    """the coordinate arrays of one coordinate choice of a history (None = what the library computes by default)"""
+    sh = tuple(c['shape']); mask = np.array(c['mask']).reshape(sh)
+    if spec and 'pupil_radius' in spec: return ref_coords(_disc(sh, spec['pupil_radius']))      # global pupil coordinates
+    if spec: return ref_coords(mask, shift=tuple(spec['shift']), rotate=spec['rotate'])
+    return ref_coords(mask)
+
 # ------------------------------------------------------------------------------------------ generation
 def _mask(rng, kind, n):
-    vlib.import_lentil()
-    import lentil
     if kind == 'circle':
-        m = lentil.circle((n, n), n / 2 - 1 - rng.integers(0, 2), antialias=False)
+        m = _disc((n, n), n / 2 - 1 - rng.integers(0, 2))
     elif kind == 'hexagon':
-        m = lentil.hexagon((n, n), n / 2 - 1.5, rotate=bool(rng.integers(0, 2)), antialias=False)
+        m = _hexm((n, n), n / 2 - 1.5, rotate=bool(rng.integers(0, 2)))
     elif kind == 'segmented':
-        m = lentil.hex_segments(1, max(2.0, n / 7), 1.0, antialias=False, flatten=True, pad=1 + int(rng.integers(0, 2)))
+        r = max(2.0, n / 7); g = 1.0 + int(rng.integers(0, 2)); pitch = r * math.sqrt(3) + g
+        m = np.zeros((n, n))
+        for q in range(7):                                            # a hexagon and its ring of six, separated by gaps
+            ang = math.pi / 3 * q + math.pi / 6
+            ctr = (0.0, 0.0) if q == 6 else (round(pitch * math.sin(ang)), round(pitch * math.cos(ang)))
+            m = np.maximum(m, _hexm((n, n), r, shift=ctr, rotate=True))
     elif kind == 'offcentre':
-        m = lentil.circle((n, n + int(rng.integers(0, 4))), n / 3.5, shift=(int(rng.integers(-2, 3)), int(rng.integers(-2, 3))), antialias=False)
+        m = _disc((n, n + int(rng.integers(0, 4))), n / 3.5, shift=(int(rng.integers(-2, 3)), int(rng.integers(-2, 3))))
     else:
         m = (rng.uniform(size=(n, n + 1)) < 0.6).astype(float)
         m *= rng.integers(1, 4, m.shape)           # weights: only the support may matter
@@ -72,26 +141,18 @@ def _coords(rng):
     return {'shift': [int(rng.integers(-6, 7)) / 4, int(rng.integers(-6, 7)) / 4], 'rotate': float(rng.integers(-90, 91))}
 
 def _cond(mask, modes, coords):
-    vlib.import_lentil()
-    import lentil, sys
-    Z = sys.modules['lentil.zernike']
-    kw = {}
-    if coords: kw['rho'], kw['theta'] = Z.zernike_coordinates(mask, shift=tuple(coords['shift']), rotate=coords['rotate'])
-    return max(float(np.linalg.cond(lentil.zernike_basis(mask, modes, vectorize=True, normalize=n, **kw).T)) for n in (True, False))
+    rho, theta = ref_coords(mask, shift=tuple(coords['shift']), rotate=coords['rotate']) if coords else ref_coords(mask)
+    return ref_cond(mask, modes, rho, theta)
 
 def _ill_case(rng, N, r, nm, few=False):
     """ill-conditioned but full-rank: many modes over a small off-centre segment of a large pupil, with the caller supplying the
     GLOBAL pupil coordinates (cond 1e5..1e8). Oracle-only (the Cramer model is for k <= 6, cond <= 1e4)."""
-    vlib.import_lentil()
-    import lentil, sys
-    Z = sys.modules['lentil.zernike']
     R = N // 2 - 1
     sh = (int(rng.integers(N // 5, N // 3)) * (1 if rng.integers(0, 2) else -1), int(rng.integers(N // 6, N // 4)))
-    seg = np.asarray(lentil.circle((N, N), r, shift=sh, antialias=False), dtype=float)
+    seg = _disc((N, N), r, shift=sh)
     G = {'pupil_radius': R}
     modes = [int(x) for x in rng.permutation(np.arange(1, nm + 1))]
-    rho, theta = Z.zernike_coordinates(lentil.circle((N, N), R, antialias=False))
-    cond = max(float(np.linalg.cond(lentil.zernike_basis(seg, modes, vectorize=True, normalize=n_, rho=rho, theta=theta).T)) for n_ in (True, False))
+    cond = ref_cond(seg, modes, *ref_coords(_disc((N, N), R)))
     L = {'opd': 'C', 'mask': 'C', 'coords': 'C'}
     def opd(): return [int(x) / 16 for x in rng.integers(-64, 65, seg.size)]
     def coeffs(): return [int(x) / 8 for x in rng.integers(-40, 41, nm)]
@@ -107,18 +168,14 @@ def _ill_case(rng, N, r, nm, few=False):
 
 def _medium_case(rng):
     """moderately ill-conditioned (cond 1e2..1e4), WITH residual, k <= 6: compared with the Lean model"""
-    vlib.import_lentil()
-    import lentil, sys
-    Z = sys.modules['lentil.zernike']
     N = int(rng.integers(32, 49)); R = N // 2 - 1; r = int(rng.integers(3, 5))
     sh = (int(rng.integers(N // 5, N // 3)) * (1 if rng.integers(0, 2) else -1), int(rng.integers(N // 6, N // 4)))
-    seg = np.asarray(lentil.circle((N, N), r, shift=sh, antialias=False), dtype=float)
+    seg = _disc((N, N), r, shift=sh)
     G = {'pupil_radius': R}
     nm = int(rng.integers(5, 7))
     modes = [int(x) for x in rng.permutation(np.arange(1, nm + 1))]          # the low orders look alike on a small patch: cond 1e2..1e3
     if rng.integers(0, 2): modes[int(rng.integers(0, nm))] = int(rng.integers(nm + 1, 16))
-    rho, theta = Z.zernike_coordinates(lentil.circle((N, N), R, antialias=False))
-    cond = max(float(np.linalg.cond(lentil.zernike_basis(seg, modes, vectorize=True, normalize=n_, rho=rho, theta=theta).T)) for n_ in (True, False))
+    cond = ref_cond(seg, modes, *ref_coords(_disc((N, N), R)))
     L = {'opd': 'C', 'mask': 'C', 'coords': 'C'}
     def opd(): return [int(x) / 16 for x in rng.integers(-64, 65, seg.size)]
     steps = [{'t': 'fit', 'modes': modes, 'normalize': True, 'coords': G, 'opd': opd(), 'layout': dict(L)},
@@ -138,17 +195,38 @@ def generate(rng, tier):
     if tier in ('search', 'thorough'): out.append(_ill_case(rng, 256, 20, 22, few=True))
     return out
 
+# the cosine/sine partners (same n and |m|) among Noll 1..36: (2,3), (5,6), (7,8), ... (35,36)
+def _partners(lo, hi): return [(j, j + 1) for j in range(lo, hi) if ref_noll(j)[1] == ref_noll(j + 1)[1] and abs(ref_noll(j)[0]) == abs(ref_noll(j + 1)[0])]
+PARTNERS = _partners(1, 36)
+PARTNERS_HI = _partners(37, 66)            # radial orders 8..10: deeper tiers only
+
 def _generate(rng, tier):
-    n = {'quick': 30, 'thorough': 700, 'search': 100}[tier]
+    n = {'quick': 30, 'thorough': 520, 'search': 100}[tier]
     kinds = ['circle', 'hexagon', 'segmented', 'offcentre', 'irregular']
     out = []
+    ptr = int(rng.integers(0, len(PARTNERS)))
     for k in range(n):
         kind = kinds[k % 5]
-        size = int(rng.integers(9, 23))
+        paired = k % 2 == 1
+        high = paired and tier != 'quick' and k % 10 == 7          # Noll 37..66 on the larger masks
+        size = int(rng.integers(18, 23)) if high else int(rng.integers(14, 23)) if paired else int(rng.integers(9, 23))
         m = _mask(rng, kind, size)
         nm = int(rng.integers(1, 7))
-        top = 37 if (k % 4 == 3 and size >= 14) else 22
-        while True:
+        top = 37 if (k % 4 == 2 and size >= 14) else 22
+        if paired:
+            # mode sets made of PAIRS OF ADJACENT Noll indices up to 36: the cosine/sine partners in rotation (every partner pair occurs in
+            # every quick run), sometimes one arbitrary adjacent pair (j, j+1) — two modes that a defect makes coincide are both requested
+            prs = []
+            pool = PARTNERS_HI if high else PARTNERS
+            for _ in range(int(rng.integers(1, 4))): prs.append(pool[ptr % len(pool)]); ptr += 1
+            if rng.integers(0, 2):
+                j = int(rng.integers(37, 66)) if high else int(rng.integers(1, 36))
+                if all(j not in p_ and j + 1 not in p_ for p_ in prs): prs[-1] = (j, j + 1)
+            modes = [x for p_ in prs for x in p_]
+            modes = [modes[i] for i in rng.permutation(len(modes))]
+            if modes == [1, 2]: modes = [2, 1]
+            nm = len(modes)
+        while not paired:
             modes = [int(x) for x in rng.choice(np.arange(1, top), size=nm, replace=False)]
             if modes != list(range(1, nm + 1)): break
         A, B, C = None, _coords(rng), _coords(rng)
@@ -194,6 +272,9 @@ def tags(c):
         if s['coords'] and s['layout']['coords'] != 'C': t.append('coords-layout:' + s['layout']['coords'])
         if s['layout']['mask'] != 'C': t.append('mask-layout:' + s['layout']['mask'])
         if max(s['modes']) > 21: t.append('modes:noll>21')
+        if max(s['modes']) > 36: t.append('modes:noll>36')
+        if any(a in s['modes'] and b in s['modes'] for a, b in PARTNERS): t.append('modes:cos-sin-partners')
+        if any(j + 1 in s['modes'] for j in s['modes']): t.append('modes:adjacent-indices')
     return t
 
 # ------------------------------------------------------------------------------------------ implementation
@@ -216,60 +297,76 @@ def _modes(s):
 
 def _fl(a): return [float(x) for x in np.asarray(a, dtype=float).ravel()]
 
+class _Watch:
+    """every argument array handed to the library is compared with a private copy after the call: the caller's OPD, mask and
+    coordinate arrays belong to the caller (the same arrays are handed to the next call of the history)"""
+    def __init__(self): self.touched = []
+    def __call__(self, step, fname, fn, **arrays):
+        snap = {k: np.array(v, copy=True) for k, v in arrays.items() if isinstance(v, np.ndarray)}
+        try: return fn()
+        finally:
+            for k, v in snap.items():
+                if not np.array_equal(arrays[k], v, equal_nan=True):
+                    bad = ~((arrays[k] == v) | ((arrays[k] != arrays[k]) & (v != v)))
+                    ix = tuple(int(x) for x in np.argwhere(bad)[0])
+                    self.touched.append({'step': step, 'call': fname, 'arg': k, 'n': int(bad.sum()), 'at': list(ix),
+                                         'before': float(v[ix]), 'after': float(arrays[k][ix])})
+
 def impl(c):
     vlib.import_lentil()
-    import lentil, sys
-    Z = sys.modules['lentil.zernike']
+    import lentil
     sh = tuple(c['shape'])
     mask64 = np.array(c['mask']).reshape(sh)
     mask_t = {'float64': mask64, 'bool': mask64 != 0, 'int': (mask64 != 0).astype(int) * 3, 'float32': mask64.astype(np.float32)}[c['mask_dtype']]
-    outs = []
+    outs = []; W = _Watch()
+    held = {}            # the caller's arrays: ONE array per (coordinate choice, layout) and per mask layout, reused by every call of the history
+    def hold(key, make):
+        if key not in held: held[key] = make()
+        return held[key]
     try:
-        for s in c['steps']:
+        for i, s in enumerate(c['steps']):
             L = s['layout']
-            mask = _layout(mask_t, L['mask'])
-            if s['coords'] and 'pupil_radius' in s['coords']:
-                rho, theta = Z.zernike_coordinates(lentil.circle(sh, s['coords']['pupil_radius'], antialias=False))     # global pupil coordinates
-                kw = {'rho': _layout(rho, L['coords']), 'theta': _layout(theta, L['coords'])}
-            elif s['coords']:
-                rho, theta = Z.zernike_coordinates(mask64, shift=tuple(s['coords']['shift']), rotate=s['coords']['rotate'])
-                kw = {'rho': _layout(rho, L['coords']), 'theta': _layout(theta, L['coords'])}
-            else:
-                rho, theta = Z.zernike_coordinates(mask64)
-                kw = {}
+            mask = hold(('mask', L['mask']), lambda: _layout(mask_t, L['mask']))
+            ck = vlib.jhash(s['coords'])
+            rho0, theta0 = hold(('ref', ck), lambda: tuple(_fl(a) for a in _case_coords(c, s['coords'])))       # what the caller meant (kept as lists)
+            if s['coords']:
+                rho, theta = hold(('arr', ck, L['coords']), lambda: tuple(_layout(np.array(a).reshape(sh), L['coords']) for a in (rho0, theta0)))
+                kw = {'rho': rho, 'theta': theta}
+            else: kw = {}
             modes = _modes(s); ml = s['modes']
-            o = {} if c.get('oracle_only') else {'rho': _fl(rho), 'theta': _fl(theta)}
+            o = {} if c.get('oracle_only') else {'rho': rho0, 'theta': theta0}
             if s['t'] in ('fit', 'rm'):
                 opd = np.array(s['opd']).reshape(sh)
                 if not s['mask_outside']: opd = opd * (mask64 != 0)
                 o['opd_in'] = _fl(opd)
                 opd = _layout(opd, L['opd'])
             if s['t'] == 'basis':
-                bz = lentil.zernike_basis(mask, modes, vectorize=s['vectorize'], normalize=s['normalize'], **kw)
+                bz = W(i, 'zernike_basis', lambda: lentil.zernike_basis(mask, modes, vectorize=s['vectorize'], normalize=s['normalize'], **kw), mask=mask, **kw)
                 o['basis_shape'] = list(np.shape(bz)); o['basis'] = _fl(bz)
             elif s['t'] == 'fit':
-                o['fit'] = _fl(lentil.zernike_fit(opd, mask, modes, normalize=s['normalize'], **kw))
+                o['fit'] = _fl(W(i, 'zernike_fit', lambda: lentil.zernike_fit(opd, mask, modes, normalize=s['normalize'], **kw), opd=opd, mask=mask, **kw))
                 rv = ml[::-1]
-                fp = lentil.zernike_fit(opd, mask, rv if len(ml) > 1 else modes, normalize=s['normalize'], **kw)
+                fp = W(i, 'zernike_fit', lambda: lentil.zernike_fit(opd, mask, rv if len(ml) > 1 else modes, normalize=s['normalize'], **kw), opd=opd, mask=mask, **kw)
                 o['fit_rev'] = _fl(fp)[::-1]
             elif s['t'] == 'rm':
-                rem = lentil.zernike_remove(opd, mask, modes, **kw)
+                rem = W(i, 'zernike_remove', lambda: lentil.zernike_remove(opd, mask, modes, **kw), opd=opd, mask=mask, **kw)
                 o['rem'] = _fl(rem); o['rem_shape'] = list(np.shape(rem))
-                o['fit_rem'] = _fl(lentil.zernike_fit(rem, mask, modes, normalize=True, **kw))
-                o['rem2_diff'] = float(np.abs(np.asarray(lentil.zernike_remove(rem, mask, modes, **kw)) - rem).max())
+                o['fit_rem'] = _fl(W(i, 'zernike_fit', lambda: lentil.zernike_fit(rem, mask, modes, normalize=True, **kw), opd=rem, mask=mask, **kw))
+                rem2 = W(i, 'zernike_remove', lambda: lentil.zernike_remove(rem, mask, modes, **kw), opd=rem, mask=mask, **kw)
+                o['rem2_diff'] = float(np.abs(np.asarray(rem2) - rem).max())
             elif s['t'] in ('rt', 'span'):
                 nrm = True if s['t'] == 'span' else s['normalize']
                 full = np.zeros(max(ml)); full[np.array(ml) - 1] = np.array(s['coeffs'])
                 o['full'] = _fl(full)
-                oc = lentil.zernike_compose(mask, full, normalize=nrm, **kw)
+                oc = W(i, 'zernike_compose', lambda: lentil.zernike_compose(mask, full, normalize=nrm, **kw), coeffs=full, mask=mask, **kw)
                 o['opd_c'] = _fl(oc)
                 ocl = _layout(oc, L['opd'] if L['opd'] != 'f32' else 'F')
-                if s['t'] == 'rt': o['fit'] = _fl(lentil.zernike_fit(ocl, mask, modes, normalize=nrm, **kw))
-                else: o['rem'] = _fl(lentil.zernike_remove(ocl, mask, modes, **kw))
+                if s['t'] == 'rt': o['fit'] = _fl(W(i, 'zernike_fit', lambda: lentil.zernike_fit(ocl, mask, modes, normalize=nrm, **kw), opd=ocl, mask=mask, **kw))
+                else: o['rem'] = _fl(W(i, 'zernike_remove', lambda: lentil.zernike_remove(ocl, mask, modes, **kw), opd=ocl, mask=mask, **kw))
             outs.append(o)
-        return {'steps': outs}
+        return {'steps': outs, 'touched': W.touched}
     except Exception as e:
-        return {'exc': type(e).__name__, 'msg': str(e)[:300], 'at_step': len(outs)}
+        return {'exc': type(e).__name__, 'msg': str(e)[:300], 'at_step': len(outs), 'touched': W.touched}
 
 def requests(c, io):
     if 'exc' in io or c.get('oracle_only'): return []
@@ -292,14 +389,18 @@ def requests(c, io):
 
 def _judged(c): return c['cond'] <= 1e4
 
-def _ctol(c): return max(1e-10, 1e-11 * c['cond'] ** 2)      # the model solves the normal equations by Cramer/Laplace at Float: error ~ cond^2 x epsilon x k!
+def _ctol(c):
+    # the model solves the normal equations by Cramer/Laplace at Float: error ~ cond^2 x epsilon x k! x cancellation in the 6x6 Laplace
+    # expansion; measured on 80 medium-conditioned histories: median 2e-14 x cond^2, worst seen 1.6e-11 x cond^2.  The library itself is
+    # judged far more tightly by the oracle (1e-12 x cond), so this only bounds the MODEL's own rounding.
+    return max(1e-10, 1e-10 * c['cond'] ** 2)
 
 def _where(c, i, s):
     return (f"call {i + 1}/{len(c['steps'])} ({s['t']}, modes {s['modes']} as {s['modes_form']}, "
             f"coords {'supplied' if s['coords'] else 'default'}, layouts {s['layout']}, mask dtype {c['mask_dtype']})")
 
 def compare(c, io, mo):
-    if 'exc' in io or c.get('oracle_only'): return None          # judged by the oracle
+    if 'exc' in io or c.get('oracle_only') or io.get('touched'): return None          # judged by the oracle
     for m in mo:
         if not m.get('ok'): return f"model refused: {m.get('err')}"
     k = 0
@@ -343,7 +444,16 @@ def compare(c, io, mo):
     return None
 
 # ------------------------------------------------------------------------------------------ oracle (real code only)
+def _touched(c, io):
+    for t in io.get('touched') or []:
+        s = c['steps'][t['step']]
+        return (f"{_where(c, t['step'], s)}: {t['call']} overwrote the caller's `{t['arg']}` array in place ({t['n']} samples; at {t['at']}: {t['before']} -> {t['after']}) — "
+                f"the next call of the history receives the same array and no longer sees the arguments the caller supplied")
+    return None
+
 def oracle(c, io):
+    t = _touched(c, io)
+    if t: return t
     if 'exc' in io: return f"call {io.get('at_step', 0) + 1} raised {io['exc']}: {io.get('msg')}"
     if c['cond'] > 1e9: return None      # modes not (numerically) independent on this mask: outside the property's hypothesis
     # a backward-stable least-squares solution is accurate to ~cond x machine epsilon (measured for pinv: ~1e-16 x cond); a solver that
@@ -386,3 +496,9 @@ def shrink(c):
         if any(v != 'C' for v in s['layout'].values()):
             d = dict(c); d['steps'] = list(c['steps']); d['steps'][i] = dict(s, layout={'opd': 'C', 'mask': 'C', 'coords': 'C'}); yield d
     if c['mask_dtype'] != 'float64': d = dict(c); d['mask_dtype'] = 'float64'; yield d
+    for i, s in enumerate(c['steps']):                      # fewer modes in one call (the conditioning bound of the case stays: it only gets better)
+        if len(s['modes']) > 1:
+            for q in range(len(s['modes'])):
+                t = dict(s, modes=s['modes'][:q] + s['modes'][q + 1:])
+                if 'coeffs' in s: t['coeffs'] = s['coeffs'][:q] + s['coeffs'][q + 1:]
+                d = dict(c); d['steps'] = list(c['steps']); d['steps'][i] = t; yield d
